@@ -27,6 +27,7 @@ EXPLANATION = (
     "JoinSet down, and the writer task is held through AbortOnDrop whose Drop aborts. Not decided: enumeration of exit cause x "
     "phase x connection count; RAII makes the guarantee independent of the exit path."
     ' For a hook list with several callback shapes every element the Drop loop takes is called (path rule from the next() is Some edge).'
+    " Wherever one server's hook lists are handed to another server value the source's peer_id_counter is stored with them, and with_peer_registry adopts the registry's id counter (two counters minting ids into one registry collide)."
 )
 ASSUMPTIONS = ["Rust drops an initialised, never-moved local exactly once on every exit (return, unwind, coroutine drop)",
                "tokio mpsc is FIFO; CancellationToken clones share one state"]
@@ -275,8 +276,20 @@ def run(facts, R):
                 continue
             n_hand += 1
             base = m.group(1)
-            got = [render_n(bs.rvalue(c["rv"])) for c in cw if c["body"] is b]
-            R.check(any(re.search(re.escape(base) + r"[\w\.\*\(\)]*\.peer_id_counter\b", g) for g in got), "registry-pairing", b.path, "hook lists travel with their id counter",
+            def _same_counter(v):
+                # the very counter of the source server: the field itself or a clone of the Arc (a new Arc seeded from its value is
+                # a second counter)
+                for _h in range(4):
+                    if v[0] == "call" and v[1].rsplit("::", 1)[-1] == "clone" and v[2]:
+                        v = v[2][0]
+                    elif v[0] in ("ref", "deref") and len(v) > 1 and isinstance(v[1], tuple):
+                        v = v[1]
+                    else:
+                        break
+                return v[0] == "field" and v[2] == "peer_id_counter" and re.match(re.escape(base) + r"\b", render_n(v[1])) is not None
+            vals = [bs.rvalue(c["rv"]) for c in cw if c["body"] is b]
+            got = [render_n(v_) for v_ in vals]
+            R.check(any(_same_counter(v_) for v_ in vals), "registry-pairing", b.path, "hook lists travel with their id counter",
                     "%s hands %s.%s to another server without that server's peer_id_counter (a registry hook among them would see ids minted by two counters; counter stores here: %s)" % (
                         b.path.rsplit("::", 1)[-1], base, m.group(2), [g[:50] for g in got] or "none"), w.get("span"), "hooks of %s with its counter" % base)
     R.note("registry-pairing: hook-list hand-overs between servers: %d" % n_hand)
